@@ -136,7 +136,7 @@ def build_masked(cfg):
 
 
 def build_threads(cfg):
-    wraps = ['memcpy', 'memset', 'explicit_bzero', 'getrandom']
+    wraps = ['memcpy', 'memset', 'explicit_bzero', 'getrandom', 'free']
     cflags = []
     if cfg.backend == 'asm':
         wraps.append('ascon_permute')
